@@ -17,8 +17,9 @@
       [apply_ite], [import_into_guard]: the operations of [ValueSummary<ExprRef>],
       entry order included.
     - [debug]: debug assertions compiled in (the default `dev` profile) or not.
-    - [fixed]: [false] = the code as it is; [true] = [coalesce_entries] with the
-      delete list sorted before [delete_entries] (the proposed repair).
+    - [fixed]: [false] = [coalesce_entries] before /repo e25c4dc; [true] = with the
+      delete list sorted before [delete_entries] (committed repair).
+    - [repairs]: three further proposed repairs (patches/C20-1..3), see below.
     - [vop]/[vstep]/[vrun]: histories of operations over one [GuardCtx].
 
     Executable definitions only. *)
@@ -104,58 +105,91 @@ Definition rbind {A B : Type} (r : res A) (k : A -> res B) : res B :=
 Definition expr_is_bool (e : expr) : bool :=
   match type_of e with TBV w => w =? 1 | TArr _ _ => false end.
 
+(** Repairs of /repo that the model can be switched to (all [false] = the code before them):
+    - [r_traversal]: [bottom_up_multi_pat] remembers how many children it pushed for a node
+      instead of slicing [num_children()] values (patches/C20-1);
+    - [r_closures]: [expr_to_guard] only descends into not/and/or/xor/implies and matches
+      the connectives together with the number of converted children (patches/C20-2);
+    - [r_assert]: the second [debug_assert!] of [apply_bin_op] accepts left-over entries of
+      [a] whose guard is false (patches/C20-3). *)
+Record repairs : Type := { r_traversal : bool; r_closures : bool; r_assert : bool }.
+Definition no_repairs : repairs := {| r_traversal := false; r_closures := false; r_assert := false |}.
+Definition all_repairs : repairs := {| r_traversal := true; r_closures := true; r_assert := true |}.
+
+(** a node with children for which [get_children] returned nothing.
+    Without [r_traversal] the traversal takes [num_children()] values from a stack that does
+    not hold them: in a debug build an arithmetic overflow or the
+    [debug_assert!(children.is_empty())]; in a release build the slice start is out of range,
+    or sibling values are consumed and an ancestor (at the latest the final [pop().unwrap()])
+    panics: in every case the call panics.  With [r_traversal] the node sees no child values:
+    a non-connective becomes a terminal; a connective indexes [children[0]] of an empty
+    slice (panic) unless [r_closures] makes it a terminal as well. *)
+Definition cut_other (rp : repairs) (terms : list expr) (e : expr) : res (list expr * bdd) :=
+  if r_traversal rp then Ok (terminal terms e) else Panic.
+Definition cut_connective (rp : repairs) (terms : list expr) (e : expr) : res (list expr * bdd) :=
+  if r_traversal rp && r_closures rp then Ok (terminal terms e) else Panic.
+
 (** The two closures of [expr_to_guard] run by [bottom_up_multi_pat].
 
-    get_children: the children are visited iff all of them are boolean.
-    - not all boolean (and at least one child): the child list is cleared, the node is
-      treated as ready, and the traversal takes [num_children()] values from a stack that
-      does not hold them.  In a debug build this is an arithmetic overflow or the
-      [debug_assert!(children.is_empty())]; in a release build the slice start is out of
-      range, or sibling values are consumed and an ancestor (at the latest the final
-      [pop().unwrap()]) panics: in every case the call panics.
-    - all boolean: children left to right, then the node: literal / not / and / or /
-      xor / implies are combined; any other node becomes a terminal, after its children
-      were converted (and their terminals registered) for nothing - which the
-      [debug_assert!] rejects in debug builds. *)
-Fixpoint e2g (debug : bool) (terms : list expr) (e : expr) {struct e} : res (list expr * bdd) :=
-  if negb (forallb expr_is_bool (children e)) then Panic
-  else
-    match e with
-    | BVSymbol _ _ | ArraySymbol _ _ _ => Ok (terminal terms e)
-    | BVLiteral w x => Ok (terms, BLeaf ((w =? 1) && (x =? 1)))
-    | BVNot a _ =>
-        rbind (e2g debug terms a) (fun p => Ok (fst p, bdd_not (snd p)))
-    | BVAnd a b _ =>
-        rbind (e2g debug terms a) (fun p => rbind (e2g debug (fst p) b) (fun q =>
+    get_children: the children are visited iff all of them are boolean (with [r_closures]:
+    and the node is a connective); otherwise the child list is cleared ([cut_*]).
+    Visited: children left to right, then the node: literal / not / and / or / xor /
+    implies are combined; any other node becomes a terminal, after its children were
+    converted (and their terminals registered) for nothing - which the
+    [debug_assert!(children.is_empty())] rejects in debug builds. *)
+Fixpoint e2g (rp : repairs) (debug : bool) (terms : list expr) (e : expr) {struct e} : res (list expr * bdd) :=
+  let allb := forallb expr_is_bool (children e) in
+  match e with
+  | BVSymbol _ _ | ArraySymbol _ _ _ => Ok (terminal terms e)
+  | BVLiteral w x => Ok (terms, BLeaf ((w =? 1) && (x =? 1)))
+  | BVNot a _ =>
+      if allb then rbind (e2g rp debug terms a) (fun p => Ok (fst p, bdd_not (snd p)))
+      else cut_connective rp terms e
+  | BVAnd a b _ =>
+      if allb then
+        rbind (e2g rp debug terms a) (fun p => rbind (e2g rp debug (fst p) b) (fun q =>
           Ok (fst q, bdd_and (snd p) (snd q))))
-    | BVOr a b _ =>
-        rbind (e2g debug terms a) (fun p => rbind (e2g debug (fst p) b) (fun q =>
+      else cut_connective rp terms e
+  | BVOr a b _ =>
+      if allb then
+        rbind (e2g rp debug terms a) (fun p => rbind (e2g rp debug (fst p) b) (fun q =>
           Ok (fst q, bdd_or (snd p) (snd q))))
-    | BVXor a b _ =>
-        rbind (e2g debug terms a) (fun p => rbind (e2g debug (fst p) b) (fun q =>
+      else cut_connective rp terms e
+  | BVXor a b _ =>
+      if allb then
+        rbind (e2g rp debug terms a) (fun p => rbind (e2g rp debug (fst p) b) (fun q =>
           Ok (fst q, bdd_xor (snd p) (snd q))))
-    | BVImplies a b =>
-        rbind (e2g debug terms a) (fun p => rbind (e2g debug (fst p) b) (fun q =>
+      else cut_connective rp terms e
+  | BVImplies a b =>
+      if allb then
+        rbind (e2g rp debug terms a) (fun p => rbind (e2g rp debug (fst p) b) (fun q =>
           Ok (fst q, bdd_implies (snd p) (snd q))))
-    | BVZeroExt a _ _ | BVSignExt a _ _ | BVSlice a _ _ | BVNegate a _ | ArrayConstant a _ _ =>
-        rbind (e2g debug terms a) (fun p =>
+      else cut_connective rp terms e
+  | BVZeroExt a _ _ | BVSignExt a _ _ | BVSlice a _ _ | BVNegate a _ | ArrayConstant a _ _ =>
+      if allb && negb (r_closures rp) then
+        rbind (e2g rp debug terms a) (fun p =>
           if debug then Panic else Ok (terminal (fst p) e))
-    | BVEqual a b | BVGreater a b | BVGreaterSigned a b _
-    | BVGreaterEqual a b | BVGreaterEqualSigned a b _ | BVConcat a b _
-    | BVShiftLeft a b _ | BVArithmeticShiftRight a b _ | BVShiftRight a b _ | BVAdd a b _ | BVMul a b _
-    | BVSignedDiv a b _ | BVUnsignedDiv a b _ | BVSignedMod a b _ | BVSignedRem a b _
-    | BVUnsignedRem a b _ | BVSub a b _ | BVArrayRead a b _ | ArrayEqual a b =>
-        rbind (e2g debug terms a) (fun p => rbind (e2g debug (fst p) b) (fun q =>
+      else cut_other rp terms e
+  | BVEqual a b | BVGreater a b | BVGreaterSigned a b _
+  | BVGreaterEqual a b | BVGreaterEqualSigned a b _ | BVConcat a b _
+  | BVShiftLeft a b _ | BVArithmeticShiftRight a b _ | BVShiftRight a b _ | BVAdd a b _ | BVMul a b _
+  | BVSignedDiv a b _ | BVUnsignedDiv a b _ | BVSignedMod a b _ | BVSignedRem a b _
+  | BVUnsignedRem a b _ | BVSub a b _ | BVArrayRead a b _ | ArrayEqual a b =>
+      if allb && negb (r_closures rp) then
+        rbind (e2g rp debug terms a) (fun p => rbind (e2g rp debug (fst p) b) (fun q =>
           if debug then Panic else Ok (terminal (fst q) e)))
-    | BVIte a b c | ArrayStore a b c | ArrayIte a b c =>
-        rbind (e2g debug terms a) (fun p => rbind (e2g debug (fst p) b) (fun q =>
-          rbind (e2g debug (fst q) c) (fun r =>
+      else cut_other rp terms e
+  | BVIte a b c | ArrayStore a b c | ArrayIte a b c =>
+      if allb && negb (r_closures rp) then
+        rbind (e2g rp debug terms a) (fun p => rbind (e2g rp debug (fst p) b) (fun q =>
+          rbind (e2g rp debug (fst q) c) (fun r =>
             if debug then Panic else Ok (terminal (fst r) e))))
-    end.
+      else cut_other rp terms e
+  end.
 
 (** [GuardCtx::expr_to_guard] with its leading [debug_assert!(expr.expr_is_bool(ec))] *)
-Definition expr_to_guard (debug : bool) (terms : list expr) (e : expr) : res (list expr * bdd) :=
-  if debug && negb (expr_is_bool e) then Panic else e2g debug terms e.
+Definition expr_to_guard (rp : repairs) (debug : bool) (terms : list expr) (e : expr) : res (list expr * bdd) :=
+  if debug && negb (expr_is_bool e) then Panic else e2g rp debug terms e.
 
 (* ------------------------------------------------------------------ summaries *)
 
@@ -210,7 +244,7 @@ Definition common_guards (a b : summary) : list bdd :=
   filter (fun g => bmem g (map fst b)) (dedup (map fst a)).
 
 (** [ValueSummary::apply_bin_op] (lines 120-177) *)
-Definition apply_bin_op (debug : bool) (rank : bdd -> N) (op : expr -> expr -> expr) (a b : summary)
+Definition apply_bin_op (rp : repairs) (debug : bool) (rank : bdd -> N) (op : expr -> expr -> expr) (a b : summary)
   : res summary :=
   if debug && (is_nil a || is_nil b) then Panic
   else
@@ -219,7 +253,8 @@ Definition apply_bin_op (debug : bool) (rank : bdd -> N) (op : expr -> expr -> e
       let a' := filter (fun e => negb (bmem (fst e) common)) a in
       let b' := filter (fun e => negb (bmem (fst e) common)) b in
       if is_nil a' then Ok out1
-      else if debug && is_nil b' then Panic   (* debug_assert!(!b.is_empty(), ...) *)
+      (* debug_assert!(!b.is_empty(), ...); with [r_assert]: ... || a.iter().all(|e| gc.is_false(e.guard)) *)
+      else if debug && is_nil b' && negb (r_assert rp && forallb (fun e => is_false (fst e)) a') then Panic
       else Ok (out1 ++ cross op a' b')).
 
 (** [delete_entries]: one forward pass; the head of the delete list is compared with the
@@ -293,20 +328,20 @@ Definition vs_is_false (s : summary) : bool :=
 (** [ValueSummary::to_guard] for [V = ExprRef] ([ToGuard for ExprRef] never returns
     [IteResult], so the second component is always empty and is dropped here);
     a non-boolean value is [CannotConvert] -> [unreachable!] *)
-Fixpoint to_guard (debug : bool) (terms : list expr) (s : summary) (acc : bdd) : res (list expr * bdd) :=
+Fixpoint to_guard (rp : repairs) (debug : bool) (terms : list expr) (s : summary) (acc : bdd) : res (list expr * bdd) :=
   match s with
   | [] => Ok (terms, acc)
   | (g, x) :: s' =>
       if negb (expr_is_bool x) then Panic
-      else rbind (expr_to_guard debug terms x) (fun p =>
-             to_guard debug (fst p) s' (bdd_or acc (bdd_and g (snd p))))
+      else rbind (expr_to_guard rp debug terms x) (fun p =>
+             to_guard rp debug (fst p) s' (bdd_or acc (bdd_and g (snd p))))
   end.
 
 (** [ValueSummary::apply_ite] (lines 239-284) *)
-Definition apply_ite (debug : bool) (terms : list expr) (c t f : summary) : res (list expr * summary) :=
+Definition apply_ite (rp : repairs) (debug : bool) (terms : list expr) (c t f : summary) : res (list expr * summary) :=
   if vs_is_true c then Ok (terms, t)
   else if vs_is_false c then Ok (terms, f)
-  else rbind (to_guard debug terms c (BLeaf false)) (fun p =>
+  else rbind (to_guard rp debug terms c (BLeaf false)) (fun p =>
     let tc := snd p in
     let fc := bdd_not tc in
     if is_true tc then Ok (fst p, t)
@@ -315,8 +350,8 @@ Definition apply_ite (debug : bool) (terms : list expr) (c t f : summary) : res 
                     map (fun e => (bdd_and (fst e) fc, snd e)) f)).
 
 (** [ValueSummary::import_into_guard] (lines 316-347) *)
-Definition import_into_guard (debug : bool) (terms : list expr) (s : summary) : res (list expr * summary) :=
-  rbind (to_guard debug terms s (BLeaf false)) (fun p =>
+Definition import_into_guard (rp : repairs) (debug : bool) (terms : list expr) (s : summary) : res (list expr * summary) :=
+  rbind (to_guard rp debug terms s (BLeaf false)) (fun p =>
     let g := snd p in
     if is_true g then Ok (fst p, [(BLeaf true, lit_true)])
     else if is_false g then Ok (fst p, [(BLeaf true, lit_false)])
@@ -348,28 +383,28 @@ Definition get_sum (st : vstate) (i : nat) : res summary :=
 Definition push_sum (st : vstate) (terms : list expr) (s : summary) : vstate :=
   {| vs_terms := terms; vs_sums := vs_sums st ++ [s]; vs_guards := vs_guards st |}.
 
-Definition vstep (debug fixed : bool) (st : vstate) (o : vop) : res vstate :=
+Definition vstep (rp : repairs) (debug fixed : bool) (st : vstate) (o : vop) : res vstate :=
   match o with
   | ONew x => Ok (push_sum st (vs_terms st) (vs_new x))
   | OBin rank op i j =>
       rbind (get_sum st i) (fun a => rbind (get_sum st j) (fun b =>
-        rbind (apply_bin_op debug rank op a b) (fun r => Ok (push_sum st (vs_terms st) r))))
+        rbind (apply_bin_op rp debug rank op a b) (fun r => Ok (push_sum st (vs_terms st) r))))
   | OIte c t f =>
       rbind (get_sum st c) (fun sc => rbind (get_sum st t) (fun s_t => rbind (get_sum st f) (fun sf =>
-        rbind (apply_ite debug (vs_terms st) sc s_t sf) (fun r => Ok (push_sum st (fst r) (snd r))))))
+        rbind (apply_ite rp debug (vs_terms st) sc s_t sf) (fun r => Ok (push_sum st (fst r) (snd r))))))
   | OCoalesce i =>
       rbind (get_sum st i) (fun s =>
         rbind (coalesce_entries fixed s) (fun r => Ok (push_sum st (vs_terms st) r)))
   | OImport i =>
       rbind (get_sum st i) (fun s =>
-        rbind (import_into_guard debug (vs_terms st) s) (fun r => Ok (push_sum st (fst r) (snd r))))
+        rbind (import_into_guard rp debug (vs_terms st) s) (fun r => Ok (push_sum st (fst r) (snd r))))
   | OGuard e =>
-      rbind (expr_to_guard debug (vs_terms st) e) (fun r =>
+      rbind (expr_to_guard rp debug (vs_terms st) e) (fun r =>
         Ok {| vs_terms := fst r; vs_sums := vs_sums st; vs_guards := vs_guards st ++ [snd r] |})
   end.
 
-Fixpoint vrun (debug fixed : bool) (st : vstate) (prog : list vop) : res vstate :=
+Fixpoint vrun (rp : repairs) (debug fixed : bool) (st : vstate) (prog : list vop) : res vstate :=
   match prog with
   | [] => Ok st
-  | o :: prog' => rbind (vstep debug fixed st o) (fun st' => vrun debug fixed st' prog')
+  | o :: prog' => rbind (vstep rp debug fixed st o) (fun st' => vrun rp debug fixed st' prog')
   end.
